@@ -200,7 +200,7 @@ theorem shutdown_pn (hs : OpsS inner) (s : St) (h : QN s) : QN (shutdown cfg inn
   · rw [c2]; exact h.2.2.2 (fun e => hne (c1.mpr e))
 
 theorem mkOps_s (cfg : Cfg) (inner : Ops) : OpsS (mkOps cfg inner) :=
-  fun s h => stopCore_q (cfg := cfg) (inner := inner) s h
+  fun s h hr => stopCore_q (cfg := cfg) (inner := inner) s h hr
 
 theorem mkOps_q (cfg : Cfg) (inner : Ops) (hs : OpsS inner) : OpsQ (mkOps cfg inner) where
   stop := stop_pn
